@@ -400,6 +400,151 @@ def inline_self_helpers(mod, clsname, fn):
     return fn
 
 
+def guard_to_branch(stmts, var):
+    """R7: `...; if V: return V; <rest>; return V`  ==  `...; if not V: <rest>; return V`  (for all inputs: when V is true both
+    return V at once; when it is false both run <rest> and then return V) -- provided <rest> contains no return."""
+    for i, st in enumerate(stmts):
+        if isinstance(st, ast.If) and not st.orelse and ast.unparse(st.test) == var and len(st.body) == 1 \
+                and ast.unparse(st.body[0]) == "return " + var and i + 1 < len(stmts) and ast.unparse(stmts[-1]) == "return " + var:
+            rest = stmts[i + 1:-1]
+            if rest and not any(isinstance(n, ast.Return) for r in rest for n in ast.walk(r)):
+                new = ast.If(test=ast.UnaryOp(op=ast.Not(), operand=ast.Name(id=var, ctx=ast.Load())), body=rest, orelse=[])
+                out = stmts[:i] + [new, stmts[-1]]
+                for n in out:
+                    ast.fix_missing_locations(ast.copy_location(n, st)) if n is new else None
+                return out
+    return stmts
+
+
+def inline_tracker_factory(mod, fn):
+    """R8: `tracker = self.M(a, b, c)` where M is a Broker method with parameters (self, a, b, c) -- the very names passed -- whose
+    body is `if clid >= 0: trackerclass = X else: trackerclass = Y; return trackerclass(self, clid, url, interfaceName)`
+    ==  those statements followed by `tracker = trackerclass(self, clid, url, interfaceName)` (same evaluation, no rebinding)."""
+    for node in ast.walk(fn):
+        body = getattr(node, "body", None)
+        if not isinstance(body, list):
+            continue
+        for i, st in enumerate(body):
+            if isinstance(st, ast.Assign) and len(st.targets) == 1 and ast.unparse(st.targets[0]) == "tracker" \
+                    and isinstance(st.value, ast.Call) and isinstance(st.value.func, ast.Attribute) \
+                    and isinstance(st.value.func.value, ast.Name) and st.value.func.value.id == "self" and not st.value.keywords \
+                    and all(isinstance(a, ast.Name) for a in st.value.args):
+                try:
+                    m = P.find_def(mod, "Broker." + st.value.func.attr)
+                except Exception:
+                    continue
+                params = [a.arg for a in m.args.args]
+                mb = body_stmts(m)
+                if params != ["self"] + [a.id for a in st.value.args] or m.args.vararg or m.args.kwarg or m.decorator_list or len(mb) != 2 \
+                        or not isinstance(mb[0], ast.If) or ast.unparse(mb[1]) != "return trackerclass(self, clid, url, interfaceName)":
+                    continue
+                if any(isinstance(n, ast.Return) for n in ast.walk(mb[0])):
+                    continue
+                new = ast.parse("tracker = trackerclass(self, clid, url, interfaceName)").body[0]
+                body[i:i + 1] = [copy.deepcopy(mb[0]), new]
+                ast.fix_missing_locations(fn)
+                return
+
+
+def inline_pure_locals(fn, keep=()):
+    """R9: a top-level `V = E` / `a, b = (E1, E2)` whose right-hand sides are built only from names, attribute reads and tuples
+    (no call, no subscript, no `self`), V bound exactly once in the function and not a parameter, every use of V textually
+    before any re-binding of a name free in E: the uses of V are replaced by E and the binding is dropped.  Sound when the
+    attribute reads in E cannot be affected by what runs in between: checked by the caller (pure_between)."""
+    fn = copy.deepcopy(fn)
+    params = {a.arg for a in fn.args.args}
+    changed = True
+    while changed:
+        changed = False
+        for st in list(fn.body):
+            pairs = []
+            if isinstance(st, ast.Assign) and len(st.targets) == 1:
+                t, v = st.targets[0], st.value
+                if isinstance(t, ast.Name):
+                    pairs = [(t.id, v)]
+                elif isinstance(t, ast.Tuple) and isinstance(v, ast.Tuple) and len(t.elts) == len(v.elts) \
+                        and all(isinstance(e, ast.Name) for e in t.elts):
+                    pairs = [(e.id, x) for e, x in zip(t.elts, v.elts)]
+            if not pairs:
+                continue
+            ok = True
+            for name, e in pairs:
+                if name in params or name in keep or not all(isinstance(n, (ast.Name, ast.Attribute, ast.Tuple, ast.Load)) for n in ast.walk(e)) \
+                        or any(isinstance(n, ast.Name) and n.id == "self" for n in ast.walk(e)) \
+                        or not any(isinstance(n, (ast.Attribute, ast.Tuple)) for n in ast.walk(e)):
+                    ok = False
+                    break
+                binds = [n for n in ast.walk(fn) if isinstance(n, ast.Name) and n.id == name and isinstance(n.ctx, (ast.Store, ast.Del))]
+                uses = [n for n in ast.walk(fn) if isinstance(n, ast.Name) and n.id == name and isinstance(n.ctx, ast.Load)]
+                free = {n.id for n in ast.walk(e) if isinstance(n, ast.Name)}
+                rebinds = [n.lineno for n in ast.walk(fn) if isinstance(n, ast.Name) and n.id in free
+                           and isinstance(n.ctx, (ast.Store, ast.Del)) and n.lineno > st.lineno]
+                if len(binds) != 1 or not uses or any(u.lineno <= st.lineno for u in uses) \
+                        or (rebinds and max(u.lineno for u in uses) >= min(rebinds)) or free & {x for x, _ in pairs}:
+                    ok = False
+                    break
+            if not ok:
+                continue
+            env = dict(pairs)
+
+            class Sub(ast.NodeTransformer):
+                def visit_Name(self, node):
+                    if isinstance(node.ctx, ast.Load) and node.id in env:
+                        return ast.copy_location(copy.deepcopy(env[node.id]), node)
+                    return node
+            fn.body.remove(st)
+            fn = Sub().visit(fn)
+            changed = True
+            break
+    return fn
+
+
+def pure_between(fn, allowed):
+    """every call in fn is one of the allowed source texts (dict reads, next() on a counter): nothing that runs inside fn can
+    change an attribute of its arguments; and fn stores to no attribute"""
+    for n in ast.walk(fn):
+        if isinstance(n, ast.Call) and not any(ast.unparse(n).startswith(a) for a in allowed):
+            return False
+        if isinstance(n, ast.Attribute) and isinstance(n.ctx, (ast.Store, ast.Del)):
+            return False
+    return True
+
+
+def rename_local(fn, old, new):
+    if old == new:
+        return fn
+    if any(isinstance(n, ast.Name) and n.id == new for n in ast.walk(fn)) or new in [a.arg for a in fn.args.args]:
+        return fn
+    for n in ast.walk(fn):
+        if isinstance(n, ast.Name) and n.id == old:
+            n.id = new
+    return fn
+
+
+def canon_makegift(fn):
+    """makeGift up to the names of its locals: the key local is called `i`, the looked-up entry `old`; alias locals inlined"""
+    if not pure_between(fn, ("self.myGifts.get(", "next(self.nextGiftID)")):
+        return fn
+    keys = [st.value.args[0].id for st in fn.body if isinstance(st, ast.Assign) and isinstance(st.value, ast.Call)
+            and ast.unparse(st.value.func) == "self.myGifts.get" and st.value.args and isinstance(st.value.args[0], ast.Name)]
+    fn = inline_pure_locals(fn, keep=set(keys))
+    for st in fn.body:
+        if isinstance(st, ast.Assign) and len(st.targets) == 1 and isinstance(st.targets[0], ast.Name) and isinstance(st.value, ast.Call) \
+                and ast.unparse(st.value.func) == "self.myGifts.get" and st.value.args:
+            fn = rename_local(fn, st.targets[0].id, "old")
+            idx = st.value.args[0]
+            if isinstance(idx, ast.Name):
+                fn = rename_local(fn, idx.id, "i")
+            break
+    return fn
+
+
+def canon_decgift(fn):
+    if not pure_between(fn, ()):
+        return fn
+    return inline_pure_locals(fn)
+
+
 def expect(fnname, stmts, wanted):
     got = [ast.unparse(s) for s in stmts]
     if got != wanted:
@@ -568,6 +713,8 @@ def generate():
 
     # ---- Broker.getTrackerForYourReference: lookup by clid, create + register when absent
     gy = canon(P.find_def(bro, "Broker.getTrackerForYourReference"))
+    gy.body = guard_to_branch(body_stmts(gy), "tracker")
+    inline_tracker_factory(bro, gy)
     st = [None] + body_stmts(gy)          # (assert-only statements are dropped by R5)
     if len(st) != 4 or ast.unparse(st[1]) not in ("tracker = self.yourReferenceByCLID.get(clid)", "tracker = self.yourReferenceByCLID.get(clid, None)") \
             or not isinstance(st[2], ast.If) or ast.unparse(st[2].test) != "not tracker" or st[2].orelse \
@@ -726,4 +873,222 @@ def generate():
     cl = P.find_def(bro, "Broker.connectionLost")
     if "self.finish(why)" not in [ast.unparse(s) for s in cl.body]:
         raise P.Untranslatable("Broker.connectionLost no longer calls self.finish(why)")
+    # every way of giving a connection up goes through finish(): shutdown() (Tub.stopService, duplicate connections) calls it
+    # BEFORE asking the transport to close, the inactivity timer calls shutdown()
+    sh = [ast.unparse(x) for x in body_stmts(P.find_def(bro, "Broker.shutdown"))]
+    if "self.finish(why)" not in sh or "self.transport.loseConnection()" not in sh \
+            or sh.index("self.finish(why)") > sh.index("self.transport.loseConnection()"):
+        raise P.Untranslatable("Broker.shutdown no longer calls self.finish(why) before closing the transport")
+    if "self.shutdown(why)" not in [ast.unparse(x) for x in body_stmts(P.find_def(bro, "Broker.connectionTimedOut"))]:
+        raise P.Untranslatable("Broker.connectionTimedOut no longer calls self.shutdown(why)")
+    out += gifts_part(ref, bro)
     return {"RefsGen.v": "\n\n".join(out) + "\n"}
+
+
+# ---------------------------------------------------------------------------------------------------------------
+# third-party introductions (lib/Gifts.v): makeGift / remote_decgift statement by statement, the key of the gift table, the
+# acknowledgement (what, when), the owner's name table
+def gifts_part(ref, bro):
+    out = []
+    mg = canon_makegift(canon(P.find_def(bro, "Broker.makeGift")))
+    st = body_stmts(mg)
+    KEYS = {"i = (rref.tracker.broker, rref.tracker.clid)": "KeyBrokerClid", "i = (rref.tracker.clid, rref.tracker.broker)": "KeyBrokerClid"}
+    KEYS["i = rref.tracker.clid"] = "KeyClid"
+    if len(st) == 4 and ast.unparse(st[0]) in KEYS:
+        kind, keyexpr_m = KEYS[ast.unparse(st[0])], "i"
+        st = st[1:]
+    elif len(st) == 3 and ast.unparse(st[0]) in ("old = self.myGifts.get(rref.tracker.clid)", "old = self.myGifts.get(rref.tracker.clid, None)"):
+        kind, keyexpr_m = "KeyClid", "rref.tracker.clid"
+    else:
+        raise P.Untranslatable("makeGift: unrecognised gift-table key / shape: %r" % ([ast.unparse(x) for x in st],))
+    out.append("Inductive giftkey := KeyBrokerClid | KeyClid.")
+    out.append("(* makeGift: the table is indexed by %s *)\nDefinition gift_key_kind : giftkey := %s."
+               % ({"KeyBrokerClid": "(rref.tracker.broker, rref.tracker.clid)", "KeyClid": "rref.tracker.clid"}[kind], kind))
+    if ast.unparse(st[0]) not in ("old = self.myGifts.get(%s)" % keyexpr_m, "old = self.myGifts.get(%s, None)" % keyexpr_m):
+        raise P.Untranslatable("makeGift: the entry is no longer looked up with self.myGifts.get(<key>): " + ast.unparse(st[0]))
+    br = st[1]
+    if not isinstance(br, ast.If) or ast.unparse(br.test) != "old" or ast.unparse(st[2]) != "return giftID":
+        raise P.Untranslatable("makeGift: expected `if old: ... else: ...; return giftID`")
+    again, first = body_stmts(ast.FunctionDef(body=br.body)), body_stmts(ast.FunctionDef(body=br.orelse))
+
+    def entry_tuple(stmt, where):
+        if not (isinstance(stmt, ast.Assign) and len(stmt.targets) == 1 and ast.unparse(stmt.targets[0]) == "self.myGifts[%s]" % keyexpr_m
+                and isinstance(stmt.value, ast.Tuple) and len(stmt.value.elts) in (2, 3)):
+            raise P.Untranslatable("makeGift (%s): expected a store of a tuple into self.myGifts[i], found %s" % (where, ast.unparse(stmt)))
+        names = [ast.unparse(e) for e in stmt.value.elts[:-1]]
+        if names not in (["rref", "giftID"], ["giftID"]):
+            raise P.Untranslatable("makeGift (%s): unexpected entry layout %r" % (where, names))
+        return names, stmt.value.elts[-1]
+    if len(again) != 2 or len(first) != 3:
+        raise P.Untranslatable("makeGift: unexpected number of statements in the branches")
+    n1, cnt_again = entry_tuple(again[1], "entry exists")
+    n2, cnt_first = entry_tuple(first[2], "new entry")
+    unpack = ", ".join(n1 + ["count"]) + " = old"
+    if ast.unparse(again[0]) != unpack:
+        raise P.Untranslatable("makeGift (entry exists): expected `%s`, found %s" % (unpack, ast.unparse(again[0])))
+    if n1 != n2:
+        raise P.Untranslatable("makeGift: the two stores use different entry layouts")
+    expect("makeGift (new entry)", first[:2], ["giftID = next(self.nextGiftID)", "self.myGiftsByGiftID[giftID] = %s" % keyexpr_m])
+    fn, env = expr_translator({"count": P.Z})
+    e1, t1 = fn.ex(cnt_again, env)
+    fn.need(t1, P.Z, cnt_again)
+    fn, env = expr_translator({})
+    e2, t2 = fn.ex(cnt_first, env)
+    fn.need(t2, P.Z, cnt_first)
+    out.append("(* makeGift, entry exists: `%s` *)\nDefinition makeGift_again (count : Z) : Z := %s." % (ast.unparse(again[1]), e1))
+    out.append("(* makeGift, new entry: `%s` *)\nDefinition makeGift_first : Z := %s." % (ast.unparse(first[2]), e2))
+    out.append("Definition first_giftid : Z := %d." % count_start(bro, "nextGiftID"))
+
+    # ---- remote_decgift
+    dg = canon_decgift(canon(P.find_def(bro, "Broker.remote_decgift")))
+    st = body_stmts(dg)
+    if len(st) != 4:
+        raise P.Untranslatable("remote_decgift: expected 4 statements")
+    keyvars = {"KeyBrokerClid": "broker, clid", "KeyClid": "clid"}[kind]
+    keyexpr = {"KeyBrokerClid": "broker, clid", "KeyClid": "clid"}[kind]
+    if isinstance(st[0], ast.Assign) and len(st[0].targets) == 1 and isinstance(st[0].targets[0], ast.Name) \
+            and ast.unparse(st[0].value) == "self.myGiftsByGiftID[giftID]":
+        keyvars = keyexpr = st[0].targets[0].id           # the key is kept in one local, whatever its shape
+    expect("remote_decgift (lookup)", st[:2], ["%s = self.myGiftsByGiftID[giftID]" % keyvars,
+                                               "%s = self.myGifts[%s]" % (", ".join(n1 + ["gift_count"]), keyexpr)])
+    a = st[2]
+    if isinstance(a, ast.AugAssign) and ast.unparse(a.target) == "gift_count":
+        val = ast.BinOp(left=ast.Name(id="gift_count", ctx=ast.Load()), op=a.op, right=a.value)
+    elif isinstance(a, ast.Assign) and len(a.targets) == 1 and ast.unparse(a.targets[0]) == "gift_count":
+        val = a.value
+    else:
+        raise P.Untranslatable("remote_decgift: third statement does not update gift_count: " + ast.unparse(a))
+    ast.fix_missing_locations(val)
+    fn, env = expr_translator({"gift_count": P.Z, "count": P.Z})
+    e, t = fn.ex(val, env)
+    fn.need(t, P.Z, a)
+    out.append("(* remote_decgift: `%s` *)\nDefinition decgift_sub (gift_count count : Z) : Z := %s." % (ast.unparse(a), e))
+    g = st[3]
+    if not isinstance(g, ast.If) or not g.orelse:
+        raise P.Untranslatable("remote_decgift: expected `if <done>: delete both entries else: store the new count`")
+    expect("remote_decgift (done branch)", body_stmts(ast.FunctionDef(body=g.body)),
+           ["del self.myGiftsByGiftID[giftID]", "del self.myGifts[%s]" % keyexpr])
+    expect("remote_decgift (else branch)", body_stmts(ast.FunctionDef(body=g.orelse)),
+           ["self.myGifts[%s] = (%s)" % (keyexpr, ", ".join(n1 + ["gift_count"]))])
+    fn, env = expr_translator({"gift_count": P.Z})
+    out.append("(* remote_decgift: `if %s:` *)\nDefinition decgift_done (gift_count : Z) : bool := %s." % (ast.unparse(g.test), fn.cond(g.test, env)))
+
+    # ---- the recipient: TheirReferenceUnslicer.receiveClose / ackGift
+    rc_ = P.find_def(ref, "TheirReferenceUnslicer.receiveClose")
+    acc = [n for n in rc_.body if isinstance(n, ast.If) and ast.unparse(n.test) == "self.broker.tub.accept_gifts"]
+    if len(acc) != 1:
+        raise P.Untranslatable("TheirReferenceUnslicer.receiveClose: expected one `if self.broker.tub.accept_gifts:`")
+    inner = [ast.unparse(s) for s in body_stmts(ast.FunctionDef(body=acc[0].body))]
+    calls_ack = [n for n in ast.walk(rc_) if isinstance(n, ast.Attribute) and n.attr == "ackGift"]
+    if inner == ["d = self.broker.tub.getReference(self.url)", "d.addBoth(self.ackGift)"] and len(calls_ack) == 1:
+        point = "AckAfterLookup"
+    elif len(inner) >= 2 and inner[-1] == "d = self.broker.tub.getReference(self.url)" and len(calls_ack) == 1 \
+            and all(x.startswith("self.ackGift(") for x in inner[:-1]):
+        point = "AckAtReceipt"
+    elif inner[:1] == ["d = self.broker.tub.getReference(self.url)"] and len(calls_ack) == 1 and len(inner) == 2 \
+            and inner[1].startswith("self.ackGift("):
+        point = "AckAtReceipt"
+    else:
+        raise P.Untranslatable("TheirReferenceUnslicer.receiveClose: unrecognised relation between tub.getReference and ackGift: %r" % (inner,))
+    out.append("Inductive ackpoint := AckAfterLookup | AckAtReceipt.")
+    out.append("(* TheirReferenceUnslicer.receiveClose: %s *)\nDefinition gift_ack_point : ackpoint := %s." % ("; ".join(inner), point))
+    if "return (obj_deferred, ready_deferred)" not in ast.unparse(rc_) or "d.addCallbacks(_ready, _failed)" not in ast.unparse(rc_):
+        raise P.Untranslatable("TheirReferenceUnslicer.receiveClose: the gift is no longer delivered through obj_deferred/ready_deferred")
+    ag = P.find_def(ref, "TheirReferenceUnslicer.ackGift")
+    st = body_stmts(ag)
+    if len(st) != 2 or not isinstance(st[0], ast.If) or st[0].orelse or ast.unparse(st[1]) != "return rref":
+        raise P.Untranslatable("ackGift: expected `if <test on giftID>: ... decgift ...; return rref`")
+
+    class RwG(ast.NodeTransformer):
+        def visit_Attribute(self, node):
+            if ast.unparse(node) == "self.giftID":
+                return ast.copy_location(ast.Name(id="giftID", ctx=ast.Load()), node)
+            return self.generic_visit(node)
+    test = RwG().visit(copy.deepcopy(st[0].test))
+    fn, env = expr_translator({"giftID": P.Z})
+    out.append("(* ackGift: `if %s:` *)\nDefinition ackGift_sends (giftID : Z) : bool := %s." % (ast.unparse(st[0].test), fn.cond(test, env)))
+    sends = [n for n in ast.walk(st[0]) if isinstance(n, ast.Call) and isinstance(n.func, ast.Attribute)
+             and n.func.attr in ("callRemoteOnly", "callRemote") and n.args and isinstance(n.args[0], ast.Constant) and n.args[0].value == "decgift"]
+    if len(sends) != 1:
+        raise P.Untranslatable("ackGift: expected exactly one decgift call")
+    kws = {k.arg: k.value for k in sends[0].keywords}
+    if set(kws) != {"giftID", "count"} or ast.unparse(kws["giftID"]) != "self.giftID":
+        raise P.Untranslatable("ackGift: decgift is no longer sent with giftID=self.giftID, count=<n>")
+    fn, env = expr_translator({})
+    e, t = fn.ex(kws["count"], env)
+    fn.need(t, P.Z, kws["count"])
+    out.append("Definition ackGift_count : Z := %s." % e)
+    # the giver's slicer: the gift branch registers the gift and sends the tracker's URL
+    ys = P.find_def(ref, "YourReferenceSlicer.slice")
+    src_ys = ast.unparse(ys)
+    for frag in ("giftID = broker.makeGift(self.obj)", "yield b'their-reference'", "yield giftID", "yield six.ensure_binary(furl)"):
+        if frag not in src_ys:
+            raise P.Untranslatable("YourReferenceSlicer.slice (gift branch) no longer contains: " + frag)
+    if "furl = tracker.getURL()" not in ast.unparse(P.find_class(ref, "YourReferenceSlicer")):
+        raise P.Untranslatable("YourReferenceSlicer: the gift's FURL is no longer the tracker's URL")
+    if src_ys.count("makeGift(") != 1:
+        raise P.Untranslatable("YourReferenceSlicer.slice registers %d gifts per emission" % src_ys.count("makeGift("))
+    # the URL a proxy carries is the one sent with the FIRST my-reference and stored when the tracker is created
+    ft = [n for n in ast.walk(P.find_def(ref, "ReferenceableSlicer.slice")) if isinstance(n, ast.If) and ast.unparse(n.test) == "firstTime"]
+    if len(ft) != 1 or [ast.unparse(x) for x in ft[0].body[-2:]] != ["url = tracker.getURL()", "if url:\n    yield six.ensure_binary(url)"]:
+        raise P.Untranslatable("ReferenceableSlicer.slice: the URL is no longer sent with the first my-reference")
+    gt = ast.unparse(P.find_def(ref, "ReferenceableTracker.getURL"))
+    if "return self.tub.getOrCreateURLForReference(self.obj)" not in gt:
+        raise P.Untranslatable("ReferenceableTracker.getURL: unexpected shape")
+    if "self.url = url" not in [ast.unparse(s) for s in P.find_def(ref, "RemoteReferenceTracker.__init__").body] \
+            or body_stmts(P.find_def(ref, "RemoteReferenceTracker.getURL")) == [] \
+            or ast.unparse(body_stmts(P.find_def(ref, "RemoteReferenceTracker.getURL"))[0]) != "return self.url":
+        raise P.Untranslatable("RemoteReferenceTracker: the URL is no longer stored at creation and returned by getURL")
+
+    # ---- the owner's name table (pb.py): a name is assigned once per object and resolves to that object while it lives
+    pb = P.load("pb.py")
+    an = P.find_def(pb, "Tub._assignName")
+    st = [ast.unparse(s) for s in body_stmts(an)]
+    reuse = "if ref in self.referenceToName:\n    return self.referenceToName[ref]" in st
+    # what registerReference(ref, name) does to an object that already has a (generated) name -- the name in the FURL every
+    # peer's proxy carries
+    known = [n for n in body_stmts(an) if isinstance(n, ast.If) and ast.unparse(n.test) == "ref in self.referenceToName"]
+    if len(known) != 1:
+        raise P.Untranslatable("Tub._assignName: expected exactly one `if ref in self.referenceToName:`")
+    ksrc = ast.unparse(ast.Module(body=known[0].body, type_ignores=[]))
+    if [ast.unparse(x) for x in known[0].body] == ["return self.referenceToName[ref]"]:
+        existing = "KeepName"
+    elif "self.nameToReference.pop(" in ksrc or "del self.nameToReference[" in ksrc:
+        existing = "Rename"
+    else:
+        raise P.Untranslatable("Tub._assignName: unrecognised treatment of an object that already has a name: " + ksrc)
+    out.append("Inductive assignexisting := KeepName | Rename.")
+    out.append("(* Tub._assignName, the object already has a name: %s *)\nDefinition assign_existing : assignexisting := %s."
+               % (ksrc.replace("\n", "; ")[:160].replace("*)", "* )"), existing))
+    if existing == "Rename":
+        reuse = True
+    for frag in ("self.referenceToName[ref] = name", "self.nameToReference[name] = ref", "return name"):
+        if frag not in st:
+            raise P.Untranslatable("Tub._assignName no longer contains: " + frag)
+    if "self.generateSwissnumber(self.NAMEBITS)" not in ast.unparse(an):
+        raise P.Untranslatable("Tub._assignName: fresh names no longer come from generateSwissnumber")
+    out.append("(* Tub._assignName: an object that already has a name keeps it *)\nDefinition assign_reuses_name : bool := %s." % ("true" if reuse else "false"))
+    gn = P.find_def(pb, "Tub.getReferenceForName")
+    st = body_stmts(gn)
+    if not st or ast.unparse(st[0]) != "if name in self.nameToReference:\n    return self.nameToReference[name]":
+        raise P.Untranslatable("Tub.getReferenceForName no longer starts with the nameToReference lookup")
+    if "raise KeyError(" not in ast.unparse(st[-1]):
+        raise P.Untranslatable("Tub.getReferenceForName: an unknown name no longer raises KeyError")
+    gu = ast.unparse(P.find_def(pb, "Tub.getOrCreateURLForReference"))
+    if "name = self._assignName(ref)" not in gu or "return self.buildURL(name)" not in gu:
+        raise P.Untranslatable("Tub.getOrCreateURLForReference: unexpected shape")
+    tubsrc = ast.unparse(P.find_class(pb, "Tub"))
+    if "self.nameToReference = weakref.WeakValueDictionary()" not in tubsrc or "self.referenceToName = weakref.WeakKeyDictionary()" not in tubsrc:
+        raise P.Untranslatable("Tub: the name tables are no longer weak dictionaries")
+    rg = ast.unparse(P.find_def(bro, "Broker.remote_getReferenceByName"))
+    if "return self.tub.getReferenceForName(six.ensure_str(name))" not in rg:
+        raise P.Untranslatable("Broker.remote_getReferenceByName: unexpected shape")
+    gr = ast.unparse(P.find_def(pb, "Tub._getReference"))
+    if "name = sturdy.name" not in gr or "d = self.getBrokerForTubRef(sturdy.getTubRef())" not in gr \
+            or "d.addCallback(lambda b: b.getYourReferenceByName(name))" not in gr:
+        raise P.Untranslatable("Tub._getReference no longer asks the owning Tub's connection for the name")
+    gy = ast.unparse(P.find_def(bro, "Broker.getYourReferenceByName"))
+    if "d = self.remote_broker.callRemote('getReferenceByName', name=name)" not in gy or "return d" not in gy:
+        raise P.Untranslatable("Broker.getYourReferenceByName: unexpected shape")
+    return out
+
